@@ -86,7 +86,7 @@ def _n_oldagg(t: T) -> str:
         elif k == 1:
             elems.append(f"{t.neg(50)}q(X,_)")
         elif k == 2:
-            elems.append(f"r(_,X) : p(X)")
+            elems.append(t.one(["r(_,X) : p(X)", "q(_,_)", "r(_,_) : p(X)", "q(_,_) : r(X,_)"]))
         elif k == 3:
             elems.append(f"not q(_,X)")
         elif k == 4:
@@ -356,6 +356,12 @@ def unused_program(draw: Callable) -> tuple[str, str]:
         )
         stms.append(c)
         names.append("copy")
+    if t.p(15):
+        # zero-arity helpers, one of them defined by a single *negative* literal (no copy rule!)
+        stms.append("someopen :- a(X,_).")
+        stms.append(t.one(["closed :- not someopen.", "closed :- not not someopen.", "closed :- someopen."]))
+        stms.append(t.one(["out(X) :- p(X), closed.", "quiet :- not closed.", ":~ closed. [3@1]", ":- closed, p(1)."]))
+        names.append("zero_arity_copy")
     # observers of different kinds
     for _ in range(t.i(1, 4)):
         o = t.one(
@@ -524,7 +530,7 @@ def minmax_chains_program(draw: Callable) -> tuple[str, str]:
             v = head.replace("X", "W")
             sign = t.one(["", "", "-"])
             c = t.i(0, 6)
-            tup = ",P" if grouped else ""
+            tup = ",P" if grouped and t.p(75) else ""  # sometimes the group is left out of the tuple (values then collapse)
             if c == 0:
                 stms.append(f"tot(S) :- S = #sum{{ {sign}W{tup} : {v} }}.")
             elif c == 1:
@@ -599,7 +605,10 @@ def sum_chains_program(draw: Callable) -> tuple[str, str]:
         sign = t.one(["", "", "", "-"])
         grp = t.one(["D", "D", "_"])
         k2 = t.i(0, 9)
-        if k2 == 0:
+        if k2 == 0 and t.p(30):
+            stms.append(f"a(X) :- X = #sum{{ {sign}L,D : sh(D,L), {t.one(['L > 1', 'L != 2', 'cost(L,C)', 'not bad(L)', 'L < D'])} }}.")
+            names.append("weight_used_twice")
+        elif k2 == 0:
             stms.append(f"a(X) :- X = #sum{{ {sign}L,D : sh(D,L) }}.")
         elif k2 == 1:
             stms.append(f"a(D,X) :- X = #sum{{ {sign}L : sh(D,L) }}, day(D).")
@@ -668,7 +677,14 @@ def math_program(draw: Callable) -> tuple[str, str]:
         return cterm()
 
     for _ in range(t.i(1, 2)):
-        shape = t.i(0, 9)
+        shape = t.i(0, 10)
+        if shape == 10:
+            # a (negated) comparison against a variable that math can eliminate: ties decide
+            op = t.op()
+            lit = f"{t.one(['not ', 'not ', 'not not ', ''])}X {op} Z" if t.p(60) else f"{t.one(['not ', ''])}Z {op} X"
+            stms.append(f"ok(X) :- p(X), q(Y,_), Z = Y{t.one(['+1', '-1', '+0', '*2'])}, {lit}.")
+            names.append("negated_vs_eliminated")
+            continue
         if shape < 4:
             vs = ["X", "Y"]
             body = ["q(X,Y)"]
@@ -769,7 +785,10 @@ def inline_program(draw: Callable) -> tuple[str, str]:
     k = t.i(0, 11)
     grouped = hargs != "S"
     tup = "F,V" if grouped else "F"
-    if k < 4:
+    if k < 4 and grouped and t.p(25):
+        stms.append(f"foo(X) :- X = {ufn}{{ F,V,{t.one(['team', 'V', '1'])} : hl({use_args}); B,M,K : bonus(M,K,B) }}.")
+        names.append("into_aggregate_long_tuple")
+    elif k < 4:
         sib = t.one(["", "", "; B : tst(B,C)", "; B,C : tst(B,C)", "; F,V : oth(V,F)", "; 1"])
         stms.append(f"foo(X) :- X = {ufn}{{ {tup} : hl({use_args}){sib} }}.")
         names.append("into_aggregate")
@@ -906,7 +925,7 @@ def duplication_program(draw: Callable) -> tuple[str, str]:
         ren = renamings[i if t.p(70) else 0]
         lits = inst(core, ren)
         x, y = ren["X"], ren["Y"]
-        extra = t.one([[], [f"v({x})"], [f"not v({y})"], [f"{x} > 0"], ["w"], [f"t({x},T)"]])
+        extra = t.one([[], [f"v({x})"], [f"not v({y})"], [f"{x} > 0"], ["w"], [f"t({x},T)"], [f"t({x},T)", f"E = {x}", f"E = T"], [f"t(T,U)", f"{x} = T", f"U = {x}"], [f"E = {y}", f"v(E)"]])
         body = lits + extra
         if t.p(30):
             body = body[1:] + body[:1]
@@ -986,6 +1005,12 @@ def dependency_program(draw: Callable) -> tuple[str, str]:
         else:
             stms.append("der(f(G),V*2) :- pk(G,V).")
             names.append("function_arith")
+    if t.p(18):
+        # the same name with another arity: generated names must keep p/2 and p/3 apart
+        stms.append(t.one(["{ pk(G,V,W) : cand3(G,V,W) }.", "{ pk(G,V,W) } :- cand3(G,V,W).", "pk(G,V,W) ; npk3(G,V,W) :- cand3(G,V,W)."]))
+        stms.append(t.one(["top3(G,M) :- grp(G), M = #max{ W : pk(G,_,W) }.", "top3(M) :- M = #min{ V,G : pk(G,V,_) }.", ":- pk(G,V,W), pk(G,V2,W), V != V2."]))
+        stms.append("top2(G,M) :- grp(G), M = #max{ V : pk(G,V) }.")
+        names.append("same_name_other_arity")
     # consumers that make the chain traits ask for domains
     stms.append(
         t.one(
